@@ -9,5 +9,6 @@ CONSTANTS MaxLen = 2
   Variant = "skip-missing"
   CopyVarContext = TRUE
   ExtendByCompose = TRUE
+  PathKeys = FALSE
 INVARIANT DataEq
 CHECK_DEADLOCK FALSE
